@@ -470,6 +470,77 @@ def main():
     out.append("End Kernels.")
     out.append("")
 
+    # ---- mlar: the Component match of get_extracted_path
+    out.append("(* mlar/src/main.rs get_extracted_path: what each path component does *)")
+    out.append("Inductive src_component := SPrefix | SRootDir | SCurDir | SParentDir | SNormal.")
+    out.append("Inductive src_action := SSkip | SRefuse | SPush.")
+    try:
+        main_rs = read("mlar/src/main.rs")
+        fb = find_fn_body(main_rs, "get_extracted_path")
+        body = re.sub(r"//[^\n]*", "", fb[0])
+        m = re.search(r"match part \{(.*)\}\s*\}\s*Some\(file_dst\)", body, re.S)
+        arms_txt = m.group(1)
+        # split arms: patterns "=>" body, body = balanced { ... } (string literals skipped) or up to ','
+        arms = []
+        i = 0
+        while True:
+            j = arms_txt.find("=>", i)
+            if j < 0:
+                break
+            pats = arms_txt[i:j]
+            k = j + 2
+            while arms_txt[k].isspace():
+                k += 1
+            if arms_txt[k] == "{":
+                depth, q, instr = 0, k, False
+                while True:
+                    ch = arms_txt[q]
+                    if instr:
+                        if ch == "\\":
+                            q += 1
+                        elif ch == '"':
+                            instr = False
+                    elif ch == '"':
+                        instr = True
+                    elif ch == "{":
+                        depth += 1
+                    elif ch == "}":
+                        depth -= 1
+                        if depth == 0:
+                            break
+                    q += 1
+                rhs = arms_txt[k:q + 1]
+                i = q + 1
+            else:
+                q = arms_txt.find(",", k)
+                q = len(arms_txt) if q < 0 else q
+                rhs = arms_txt[k:q]
+                i = q + 1
+            arms.append((pats, rhs))
+        table = {}
+        for pats, rhs in arms:
+            rhs = rhs.strip()
+            if re.fullmatch(r"\{\s*\}", rhs.strip()):
+                act = "SSkip"
+            elif "return None" in rhs:
+                act = "SRefuse"
+            elif re.search(r"file_dst\.push\(part\)", rhs):
+                act = "SPush"
+            else:
+                raise ParseError("arm body " + rhs[:40])
+            for pat in re.findall(r"Component::(\w+)", pats):
+                table["S" + pat] = act
+        names = ["SPrefix", "SRootDir", "SCurDir", "SParentDir", "SNormal"]
+        if sorted(table) != sorted(names):
+            raise ParseError("arms %s" % sorted(table))
+        if not re.search(r"let mut file_dst = output_dir\.to_path_buf\(\);", body):
+            raise ParseError("base is not output_dir")
+        out.append("Definition component_action (c : src_component) : src_action :=\n  match c with %s end." % " | ".join("%s => %s" % (n, table[n]) for n in names))
+    except Exception as e:  # fail closed
+        out.append("(* get_extracted_path: %s *)" % e)
+        out.append("Definition component_action_untranslatable : unit := tt.")
+    out.append("")
+
     text = "\n".join(out) + "\n"
     outp = os.path.normpath(OUT)
     os.makedirs(os.path.dirname(outp), exist_ok=True)
